@@ -155,7 +155,7 @@ func escapesC01(c *Ctx) {
 // intWidthC01: integer literals keep their written value.
 func intWidthC01(c *Ctx) {
 	p := c.P
-	c.Rule("C01.intwidth", "every strconv.ParseInt / ParseUint in the package converts in base 10 at 64 bits unless its error result is examined: a narrower size with the error dropped silently saturates a legal value (LIMIT 3000000000 stored as 2147483647)")
+	c.Rule("C01.intwidth", "every strconv.ParseInt / ParseUint in the package converts in base 10 at 64 bits and its error result is examined: with the error dropped a literal that does not fit is silently stored saturated")
 	n := 0
 	for _, fn := range p.SrcFuncs() {
 		seen := 0
@@ -184,8 +184,8 @@ func intWidthC01(c *Ctx) {
 					switch {
 					case !okB || !okS || base.Value == nil || bits.Value == nil:
 						c.Unk("C01.intwidth", key, call.Pos(), "base or size is not a constant")
-					case bits.Value.String() != "64" && !errUsed:
-						c.Bad("C01.intwidth", key, call.Pos(), "size "+bits.Value.String()+" with the error dropped: a value that needs more bits is stored saturated, not rejected")
+					case !errUsed:
+						c.Bad("C01.intwidth", key, call.Pos(), "the conversion error is dropped (size "+bits.Value.String()+"): a literal that does not fit is stored saturated (LIMIT 9223372036854775808 becomes 9223372036854775807), not rejected and not the value that was written")
 					case base.Value.String() != "10" && base.Value.String() != "0" && !errUsed:
 						c.Bad("C01.intwidth", key, call.Pos(), "base "+base.Value.String())
 					default:
